@@ -105,7 +105,8 @@ def make_array(kind, n, seed):
         m[1, :, n // 2:] = d[:, n // 2:]
         return m
     if kind == 'img':
-        return np.floor(pat((n, n), seed) * 400.0 + 3.0)
+        a = np.floor(pat((n, n), seed) * 400.0 + 3.0)
+        return a.astype([np.float64, np.float64, np.float32, np.int64, np.float64, np.uint16][seed % 6])   # each supported dtype
     if kind == 'cube':
         return np.floor(pat((3, n, n), seed) * 50.0 + 1.0)
     if kind == 'cplx':
@@ -547,6 +548,12 @@ def gen_history(rng, lo, hi):
 
 
 def generate(rng, tier):
+    cases = list(generate_cases(rng, tier))
+    start_prefetch(cases, max(2, min(6, C.NCPU // 2)))
+    return cases
+
+
+def generate_cases(rng, tier):
     nh = 60 if tier == 'quick' else 400
     lo, hi = (10, 30) if tier == 'quick' else (30, 100)
     for k in range(nh):
@@ -1227,40 +1234,133 @@ def run_call(s, argdesc, n, global_seed=None):
 
 # ------------------------------------------------------------------ fresh-process server (fork per request from a pristine interpreter)
 ZSRC = r'''
-import os, sys, struct, pickle
-import numpy as np
+import sys
 from harness.props import c10
 c10.L()
-inp, outp = sys.stdin.buffer, sys.stdout.buffer
-while True:
-    hdr = inp.read(4)
-    if len(hdr) < 4:
-        break
-    (ln,) = struct.unpack('<I', hdr)
-    payload = inp.read(ln)
-    r, w = os.pipe()
-    pid = os.fork()
-    if pid == 0:
-        os.close(r)
-        try:
-            s, argdesc, n, gseed = pickle.loads(payload)
-            res = c10.run_call(s, argdesc, n, gseed)
-            data = pickle.dumps(res)
-        except BaseException as e:
-            data = pickle.dumps(('harness-error', repr(e)))
-        with os.fdopen(w, 'wb') as fh:
-            fh.write(data)
-        os._exit(0)
-    os.close(w)
-    with os.fdopen(r, 'rb') as fh:
-        data = fh.read()
-    os.waitpid(pid, 0)
-    outp.write(struct.pack('<I', len(data)))
-    outp.write(data)
-    outp.flush()
+c10.serve(sys.stdin.buffer, sys.stdout.buffer)
 '''
 
+
+def serve(inp, outp):
+    """request loop of a PRISTINE interpreter (lentil imported, nothing called): every request is handled in a fork,
+    so each call / each whole case starts from the pristine state"""
+    import traceback
+    while True:
+        hdr = inp.read(4)
+        if len(hdr) < 4:
+            break
+        (ln,) = struct.unpack('<I', hdr)
+        payload = inp.read(ln)
+        r, w = os.pipe()
+        pid = os.fork()
+        if pid == 0:
+            try:
+                os.close(r)
+                try:
+                    req = pickle.loads(payload)
+                    if req[0] == 'call':
+                        res = run_call(*req[1:])
+                    else:
+                        start_local_server()
+                        STATS.clear()
+                        res = run_case(req[1])
+                        res['_stats'] = dict(STATS)
+                    data = pickle.dumps(res)
+                except BaseException:
+                    data = pickle.dumps(('harness-error', traceback.format_exc()[-1500:]))
+                with os.fdopen(w, 'wb') as fh:
+                    fh.write(data)
+            finally:
+                os._exit(0)
+        os.close(w)
+        with os.fdopen(r, 'rb') as fh:
+            data = fh.read()
+        os.waitpid(pid, 0)
+        outp.write(struct.pack('<I', len(data)))
+        outp.write(data)
+        outp.flush()
+
+
+class LocalServer:
+    def __init__(self, stdin, stdout, pid):
+        self.stdin, self.stdout, self.pid = stdin, stdout, pid
+
+    def poll(self):
+        return None
+
+    def kill(self):
+        try:
+            os.kill(self.pid, 9)
+        except OSError:
+            pass
+
+
+def start_local_server():
+    """inside a still pristine case process: fork a pristine helper that will serve the fresh-process calls of this case"""
+    global _zy
+    a_r, a_w = os.pipe()
+    b_r, b_w = os.pipe()
+    pid = os.fork()
+    if pid == 0:
+        try:
+            os.close(a_w)
+            os.close(b_r)
+            serve(os.fdopen(a_r, 'rb'), os.fdopen(b_w, 'wb'))
+        finally:
+            os._exit(0)
+    os.close(a_r)
+    os.close(b_w)
+    _zy = LocalServer(os.fdopen(a_w, 'wb'), os.fdopen(b_r, 'rb'), pid)
+
+
 _zy = None
+
+
+def spawn_zygote():
+    env = dict(os.environ)
+    env['PYTHONPATH'] = C.REPO + ':' + C.ROOT
+    env.update(OMP_NUM_THREADS='1', OPENBLAS_NUM_THREADS='1', MKL_NUM_THREADS='1', PYTHONHASHSEED='0', VERIF_REPO=C.REPO)
+    return subprocess.Popen([sys.executable, '-W', 'ignore', '-c', ZSRC], stdin=subprocess.PIPE, stdout=subprocess.PIPE,
+                            env=env, cwd=C.ROOT)
+
+
+def talk(z, req):
+    payload = pickle.dumps(req)
+    z.stdin.write(struct.pack('<I', len(payload)))
+    z.stdin.write(payload)
+    z.stdin.flush()
+    hdr = z.stdout.read(4)
+    (ln,) = struct.unpack('<I', hdr)
+    return pickle.loads(z.stdout.read(ln))
+
+
+_prefetched = {}      # id(case) -> Future
+
+
+def start_prefetch(cases, workers):
+    """run the generated cases ahead of the runner, a few at a time, each in its own pristine process"""
+    import threading
+    from concurrent.futures import ThreadPoolExecutor
+    local = threading.local()
+
+    def work(c):
+        for attempt in (0, 1):
+            try:
+                if getattr(local, 'z', None) is None or local.z.poll() is not None:
+                    local.z = spawn_zygote()
+                return talk(local.z, ('case', c))
+            except Exception:
+                try:
+                    local.z.kill()
+                except Exception:
+                    pass
+                local.z = None
+        return None
+
+    ex = ThreadPoolExecutor(max_workers=workers)
+    for c in cases:
+        _prefetched[id(c)] = (c, ex.submit(work, c))
+    ex.shutdown(wait=False)
 
 
 def zygote():
@@ -1275,9 +1375,9 @@ def zygote():
     return _zy
 
 
-def fresh_call(s, argdesc, n, gseed):
+def server_request(req):
     global _zy
-    payload = pickle.dumps((s, argdesc, n, gseed))
+    payload = pickle.dumps(req)
     for attempt in (0, 1):
         try:
             z = zygote()
@@ -1293,7 +1393,12 @@ def fresh_call(s, argdesc, n, gseed):
             except Exception:
                 pass
             _zy = None
-    return new_interpreter_call(s, argdesc, n, gseed)
+    return None
+
+
+def fresh_call(s, argdesc, n, gseed):
+    res = server_request(('call', s, argdesc, n, gseed))
+    return res if res is not None else new_interpreter_call(s, argdesc, n, gseed)
 
 
 def forked_call(s, argdesc, n, gseed=None):
@@ -1672,10 +1777,26 @@ def run_confl(c):
             'sums': [ra['sums'], rb['sums']]}
 
 
-def run_impl(c):
+def run_case(c):
     if c['op'] == 'confl':
         return run_confl(c)
     return run_hist(c)
+
+
+def run_impl(c):
+    """every case runs in its own process forked from a pristine interpreter: nothing an earlier case left behind
+    (caches, memos, generator state) can help or hide a detection, so a replay is self-contained"""
+    pre = _prefetched.pop(id(c), None)
+    res = pre[1].result() if pre is not None and pre[0] is c else None
+    if res is None:
+        res = server_request(('case', c))
+    if res is None:
+        return run_case(c)
+    if isinstance(res, tuple) and res and res[0] == 'harness-error':
+        raise RuntimeError('case process: ' + res[1])
+    for k, v in res.pop('_stats', {}).items():
+        bump(k, v)
+    return res
 
 
 # ------------------------------------------------------------------ oracle: the purity predicates themselves
@@ -1725,6 +1846,8 @@ def compare(c, impl, model):
             return what + 'model: bad register (generator/encoder bug)'
         if st == 'ro' and m['status'] != 1:
             return what + 'implementation raised on a read-only array, the model predicts no write to a frozen array'
+        if st == 'ok' and m['status'] == 1 and r['f'] == 'insert' and not r['changed']:
+            continue     # no field overlapped the (read-only) array: the documented write the model predicts did not happen
         if st == 'ok' and m['status'] != 0:
             return what + f'model predicts error status {m["status"]}, implementation succeeded'
         if st.startswith('err:'):
